@@ -294,6 +294,74 @@ def rule_c(ck, R):
                            % fmt(addr_of(p.ret)))
         ck.verdict(bad is None and nrep >= 1, 'C02.c', 'ra_writeable', R.where('ra_writeable'),
                    'READONLY reports the first requested address that lies in the read-only area' if bad is None and nrep else (bad or 'no READONLY report found'))
+    # ra_range_touches: exact three-way classification, and its use in ra_writeable
+    eng0 = sym.Engine(R.u, sizeof=R.so, inline=set())
+    ps0 = R.paths('ra_range_touches', 'C02.a', eng0)
+    if ps0 is not None:
+        a_ = ('v', 'a')
+        B, SZ = L(('f', a_, 'base')), L(('f', a_, 'size'))
+        bad = None
+        seen = set()
+        for p in ps0:
+            if p.ret is None or not sym.is_c(p.ret):
+                bad = bad or 'returns %s' % (fmt(p.ret) if p.ret else None)
+                continue
+            v = p.ret[1]
+            facts = eng0.path_facts(p) + [Lin.const(1) - SZ, Lin.const(1) - L(N)]
+            if v < 0:
+                seen.add('below')
+                if not eng0.entails(facts, B + SZ - L(ADDR)):
+                    bad = bad or 'a negative result (area below the range) is returned under {%s}, which does not imply base + size <= addr' % '; '.join(fmt(c) for c in p.cond_terms())
+            elif v > 0:
+                seen.add('above')
+                if not eng0.entails(facts, L(ADDR) + L(N) - B):
+                    bad = bad or 'a positive result (area above the range) is returned under {%s}, which does not imply addr + n <= base' % '; '.join(fmt(c) for c in p.cond_terms())
+            else:
+                seen.add('overlap')
+                if not (eng0.entails(facts, lin.lt(B, L(ADDR) + L(N))) and eng0.entails(facts, lin.lt(L(ADDR), B + SZ))):
+                    bad = bad or 'result 0 does not imply that [base, base+size) and [addr, addr+n) overlap'
+        if seen != {'below', 'above', 'overlap'}:
+            bad = bad or 'result classes found: %s' % sorted(seen)
+        ck.verdict(bad is None, 'C02.a', 'ra_range_touches', R.where('ra_range_touches'),
+                   '<0 exactly for areas wholly below the range, >0 wholly above, 0 for overlap' if bad is None else bad)
+    psw = R.paths('ra_writeable', 'C02.a', eng0)
+    if psw is not None:
+        bad = None
+        nro = 0
+        for p in psw:
+            rt = p.calls('ra_range_touches')
+            wr = p.calls('register_area_is_writeable')
+            if not rt:
+                continue
+            r = rt[-1].result
+            if tuple(rt[-1].args[1:]) != (ADDR, N):
+                bad = bad or 'overlap test uses %s' % [fmt(a) for a in rt[-1].args]
+            below = eng0.entails(p, L(r) + 1)
+            above = eng0.entails(p, Lin.const(1) - L(r))
+            zero = eng0.entails(p, L(r)) and eng0.entails(p, -L(r))
+            last_wr = [e for e in wr if p.effects.index(e) > p.effects.index(rt[-1])]
+            if below and (last_wr or p.end != 'loopback'):
+                bad = bad or 'an area below the request is not simply skipped'
+            elif above and (last_wr or p.end == 'loopback' or code_of(p.ret) != C(E['REG_ACCESS_SUCCESS'])):
+                bad = bad or 'an area above the request does not end the scan with success'
+            elif zero:
+                if len(last_wr) != 1 or last_wr[0].args[0] != rt[-1].args[0]:
+                    bad = bad or 'an overlapped area is not tested for writeability'
+                else:
+                    w = last_wr[0].result
+                    refused = any(c[0] == 'cmp' and c[1] == '==' and strip_cast(c[2]) == w and c[3] == C(0) for c in p.cond_terms())
+                    if refused:
+                        nro += 1
+                        if p.end != 'return' or code_of(p.ret) != C(E['REG_ACCESS_READONLY']):
+                            bad = bad or 'an overlapped area that is not writeable does not end the check with READONLY'
+                    elif p.end != 'loopback':
+                        bad = bad or 'a writeable overlapped area ends the scan'
+            elif not (below or above):
+                bad = bad or 'the scan acts on an overlap result that is not decided: {%s}' % '; '.join(fmt(c) for c in p.cond_terms() if sym.contains(c, r))
+        if nro == 0:
+            bad = bad or 'no refusing path'
+        ck.verdict(bad is None, 'C02.a', 'ra_writeable:use', R.where('ra_writeable'),
+                   'below -> next area, above -> done, overlap -> must be writeable else READONLY' if bad is None else bad)
     # register_block_touches_hole: NOENTRY at the cursor which is unmapped
     ps = R.paths('register_block_touches_hole', 'C02.c')
     if ps is not None:
